@@ -3,8 +3,10 @@
 
 For every package on the consensus/network surface it scans <pkg>/msgp_gen.go for the types having
 MarshalMsg/UnmarshalMsg and the package sources for allocbound / maxtotalbytes declarations, and writes
-  /verif/harness/<pkg>/verif_c40gen_test.go   type table + bound table (expressions compiled in-package)
-  /verif/harness/<pkg>/verif_c40lib_test.go   copy of tools/genmsgp/lib.go.tmpl (C40 + C41 monitor logic)
+  /verif/harness/<pkg>/verif_c40gen.go        in-package (build tag verif): type table + bound table registered with
+                                              verif.local/kit/msgpmon (bound expressions are compiled in-package)
+  /verif/harness/verifext/msgpall/verif_c40imports_test.go   blank imports of the covered packages
+  /verif/harness/verifext/msgpall/verif_msgp_index.txt       covered / not covered msgp_gen.go files
 Run by bin/verif before every build (part field "pregen"); the outputs are committed so that a stale
 list shows up in git diff.  /repo is only read.
 """
@@ -23,4 +25,4 @@ if not os.path.exists(binp) or os.path.getmtime(binp) < newest:
         sys.exit("gen_msgp_harness: building the generator failed")
     os.replace(binp + ".tmp", binp)
 repo = os.environ.get("VERIF_REPO", "/repo")
-sys.exit(subprocess.run([binp, "-repo", repo, "-out", f"{V}/harness", "-tmpl", src] + sys.argv[1:]).returncode)
+sys.exit(subprocess.run([binp, "-repo", repo, "-out", f"{V}/harness"] + sys.argv[1:]).returncode)
